@@ -234,4 +234,6 @@ def generate(tier, seed):
                 ks = (0,)
             for k in ks:
                 obs.append(make_ob(tname, opc, op, k, tier))
+    from props.corpus import corpus_ob
+    obs.append(corpus_ob("C02", "stream", FUNCS))
     return obs
